@@ -41,6 +41,12 @@ func nilTestsOf(c *Ctx, e ssa.Value) []nilTest {
 
 func blockOrDom(a, b *ssa.BasicBlock) bool { return a == b || a.Dominates(b) }
 
+// nilEdgeDom: block b is reachable only through the nil-error edge of test t (the nil successor is
+// entered by that edge alone and dominates b).
+func nilEdgeDom(t nilTest, b *ssa.BasicBlock) bool {
+	return t.N != t.S && len(t.N.Preds) == 1 && blockOrDom(t.N, b)
+}
+
 // fieldStorePath: for a Store, the access path of the address ("d.Sync.Synced").
 func storePath(st *ssa.Store) string { return valuePath(st.Addr) }
 
@@ -139,7 +145,7 @@ func ruleTxTypestate(c *Ctx, r *Report, rule string) {
 		okAll := true
 		detail := ""
 		for _, t := range tests {
-			if !blockOrDom(t.N, commit.Block()) {
+			if !nilEdgeDom(t, commit.Block()) {
 				okAll = false
 				detail = "Commit is not confined to the nil-error branch"
 			}
@@ -256,7 +262,7 @@ func ruleTxTypestate(c *Ctx, r *Report, rule string) {
 	}()
 	afterCommit := func(ins ssa.Instruction) bool {
 		for _, t := range commitTests {
-			if t.N != t.S && blockOrDom(t.N, ins.Block()) {
+			if nilEdgeDom(t, ins.Block()) {
 				return true
 			}
 		}
@@ -277,6 +283,11 @@ func ruleTxTypestate(c *Ctx, r *Report, rule string) {
 		cons := fmt.Sprintf("in-memory height advance %s", ord(nAdv))
 		if afterCommit(p.ins) {
 			r.okNT(rule, cons, c.ipos(p.ins), hpath+" advanced only on the nil-error edge of Commit: a failed or rolled-back block never moves it")
+			continue
+		}
+		// after Commit but not confined to its nil-error edge: the failure path publishes too
+		if !instrDominates(p.ins, commit) {
+			r.viol(rule, cons, c.ipos(p.ins), hpath+" is advanced after Commit on a path that is also taken when Commit failed: the in-memory height gets ahead of the database and the next iteration skips a block")
 			continue
 		}
 		// advanced before Commit: must follow the block call and be compensated on every failing path
